@@ -26,6 +26,12 @@ func main() {
 			runDynamic(id, os.Args[3:])
 			return
 		}
+		switch id {
+		case "C09":
+			runC09(os.Args[3:])
+		case "C10":
+			runC10(os.Args[3:])
+		}
 		fmt.Println("no check for property", id)
 		os.Exit(2)
 	case "corpus":
